@@ -106,7 +106,9 @@ func c03Gen(r *rand.Rand, n int, tier string) []string {
 		var ops []string
 		clock := int64(100)
 		tick := func() int64 { clock += int64(1 + r.Intn(3)); return clock }
-		nt := func() string { return fmt.Sprintf("%s,-,0,%s,%d,0,-,-", hxs("nodeType"), hxs(pick(r, []string{"device", "group", "user"})), tick()) }
+		nt := func() string {
+			return fmt.Sprintf("%s,-,0,%s,%d,0,-,-", hxs("nodeType"), hxs(pick(r, []string{"device", "group", "user"})), tick())
+		}
 		pt := func() string {
 			t := tick()
 			if r.Intn(6) == 0 {
